@@ -83,6 +83,11 @@ type streamCase struct {
 	Caps   uint32 `json:"caps_mask"`
 	Segs   []Seg  `json:"segs"`
 	Chunks []int  `json:"chunks"`
+	// Queue: Options.EventQueueSize (0 = the default, 1024); Slow: the
+	// consumer starts reading only after the whole stream has been written,
+	// so the input loop works against a full queue
+	Queue int  `json:"event_queue_size,omitempty"`
+	Slow  bool `json:"slow_consumer,omitempty"`
 }
 
 func evText(ev vaxis.Event) (string, bool) {
@@ -268,6 +273,40 @@ func (g *genState) reply() (seg Seg) {
 		return Seg{Kind: "reply", Hex: hex.EncodeToString([]byte(s[:cut])), Desc: fmt.Sprintf("truncated %q", s[:cut])}
 	case 2: // malformed: parameters removed or garbled
 		m := strings.NewReplacer(";", "", "1", "", "=", ";").Replace(s)
+		if semis := strings.Count(s, ";"); semis > 0 {
+			switch v := r.Intn(4); v {
+			case 0, 1:
+				// one parameter (with its separator) missing: the k-th
+				// ";..." field is cut out up to the next ';' or the end of
+				// the parameter bytes
+				k := r.Intn(semis)
+				at := 0
+				for i := 0; i < len(s); i++ {
+					if s[i] == ';' {
+						if k == 0 {
+							at = i
+							break
+						}
+						k--
+					}
+				}
+				end := at + 1
+				for end < len(s) && (s[end] >= '0' && s[end] <= '9' || s[end] == ':') {
+					end++
+				}
+				m = s[:at] + s[end:]
+			case 2:
+				// every parameter empty, separators kept
+				var sb strings.Builder
+				for i := 0; i < len(s); i++ {
+					if i > 1 && s[i] >= '0' && s[i] <= '9' && (s[1] == '[') {
+						continue
+					}
+					sb.WriteByte(s[i])
+				}
+				m = sb.String()
+			}
+		}
 		return Seg{Kind: "reply", Hex: hex.EncodeToString([]byte(m)), Desc: fmt.Sprintf("malformed %q", m)}
 	default:
 		return Seg{Kind: "reply", Hex: hex.EncodeToString([]byte(s)), Desc: fmt.Sprintf("unsolicited %q", s), WellFormed: true, Complete: true}
@@ -315,6 +354,14 @@ func genStream(r gen.R) streamCase {
 	if r.Intn(6) == 0 {
 		n = r.Range(200, 400)
 	}
+	if r.Intn(4) == 0 {
+		// a queue larger than the number of start-up notifications (which
+		// are posted without blocking) and smaller than the stream's events
+		sc.Queue, sc.Slow = r.Range(48, 96), true
+		if n < 150 {
+			n = r.Range(150, 250)
+		}
+	}
 	for i := 0; i < n; i++ {
 		switch k := r.Intn(20); {
 		case k < 12:
@@ -354,7 +401,7 @@ func runStream(w *harness.W, sc streamCase, r gen.R) (violKey string) {
 	w.Begin(string(cj))
 	defer w.End()
 	caps := refterm.CapsFromMask(sc.Caps)
-	sess, err := vxh.Start(80, 24, caps, vaxis.Options{}, nil)
+	sess, err := vxh.Start(80, 24, caps, vaxis.Options{EventQueueSize: sc.Queue}, nil)
 	if err != nil {
 		w.Inconclusive("start-failed")
 		return ""
@@ -393,7 +440,9 @@ func runStream(w *harness.W, sc streamCase, r gen.R) (violKey string) {
 			rem -= c
 		}
 	}
+	injected := make(chan struct{})
 	go func() {
+		defer close(injected)
 		off := 0
 		for _, c := range sc.Chunks {
 			if off+c > len(data) {
@@ -406,6 +455,10 @@ func runStream(w *harness.W, sc streamCase, r gen.R) (violKey string) {
 			sess.Con.Inject(data[off:])
 		}
 	}()
+	if sc.Slow {
+		<-injected
+		time.Sleep(5 * time.Millisecond)
+	}
 	// collect events per segment
 	got := make([][]string, len(sc.Segs))
 	i := 0
@@ -493,6 +546,9 @@ func runStream(w *harness.W, sc streamCase, r gen.R) (violKey string) {
 		w.Eval(1)
 	}
 	w.Distinct("caps_masks", fmt.Sprint(sc.Caps))
+	if sc.Slow {
+		w.Count("streams_against_a_full_event_queue", 1)
+	}
 	if len(sc.Segs) > 30 {
 		w.Sample(map[string]any{"caps_mask": sc.Caps, "segments": len(sc.Segs), "first_segments": sc.Segs[:6]})
 	}
